@@ -124,7 +124,7 @@ pub fn generate(seed: u64, tier: &str, out: &mut dyn std::io::Write) {
     let nnat = if tier == "thorough" { 80 } else { 30 };
     for i in 0..nnat {
         let mut r = Rng::for_case(seed, 1011, i);
-        let scen = *r.pick(&["badname", "baddso", "traced", "none", "killed", "killed"]);
+        let scen = *r.pick(&["badname", "baddso", "traced", "none", "killed", "killed", "badlink"]);
         let nblock = r.range(1, 4) as usize;
         let mut args = vec!["-t".to_string(), nblock.to_string()];
         let victim = r.range(0, nblock as u64) as usize;
@@ -133,11 +133,23 @@ pub fn generate(seed: u64, tier: &str, out: &mut dyn std::io::Write) {
             args.push("-n".into());
             args.push(format!("{}:{}", victim, *r.pick(&["ff", "c328", "80616263", "61ff62"])));
         }
+        if scen == "badlink" {
+            // a linker list in which one object's name is not UTF-8: reading the linker data fails softly, and the
+            // failure (whose text carries those bytes) still has to be reported
+            args.push("-d".into());
+            args.push("3".into());
+            args.push("-D".into());
+            args.push(format!("{}:{}", r.range(0, 2), *r.pick(&["ff", "2f6c69622f6c6962fffec32e736f", "c3"])));
+        }
         let t = match Target::spawn(&args) {
             Ok(t) => t,
             Err(_) => continue,
         };
         let mut cfg = DumpCfg::default();
+        if scen == "badlink" {
+            let dso = &t.desc["dso"];
+            cfg.direct_auxv = Some((dso["phnum"].as_u64().unwrap(), dso["phdr"].as_u64().unwrap(), 0, 0));
+        }
         // blame another thread than the victim (the blamed thread's status is not parsed)
         let others: Vec<usize> = (0..t.threads.len()).filter(|x| *x != victim).collect();
         cfg.blamed = t.threads[*r.pick(&others)].tid;
